@@ -200,6 +200,8 @@ PMODELS = ["ParticleCollisionModel_t", "ParticleBreakupModel_t", "ParticleForceM
            "ParticlePhaseChangeModel_t"]
 
 
+SWEPT = {}          # label -> number of delete sweeps over sibling groups of that kind in this run
+
 class Gen:
     def __init__(self, rng, tab, big):
         self.rng, self.tab, self.big = rng, tab, big
@@ -819,6 +821,8 @@ class Gen:
             groups.setdefault((id(x.parent), x.label), []).append(x)
         multi = [g for g in groups.values() if len(g) >= 2]
         self.rng.shuffle(multi)
+        # across the histories of one run every kind of sibling group gets its turn: kinds swept least often first
+        multi.sort(key=lambda g: SWEPT.get(g[0].label, 0))
         seen = set()
         for g in multi:
             if len(seen) >= limit:
@@ -830,6 +834,7 @@ class Gen:
             g = [x for x in g if x in self.deletable()]
             if len(g) >= 2:
                 self.delete_some(self.rng.choice(g[:-1]))
+                SWEPT[g[0].label] = SWEPT.get(g[0].label, 0) + 1
                 self.stats["delete_sweep"] = self.stats.get("delete_sweep", 0) + 1
 
     def delete_some(self, x=None):
@@ -917,7 +922,7 @@ def gen_scenario(rng, tab, big, fname):
             g.navigate(rng.choice(nav), "m")
         if rng.random() < 0.25:
             g.emit("@mirror", kind="mirror")
-    g.delete_sweep(4 if big else 2)
+    g.delete_sweep(5 if big else 3)
     g.emit("@mirror", kind="mirror")
     g.emit("close", kind="create")
     return g
@@ -1122,7 +1127,7 @@ def run(ck):
                       "random targets x 10 spellings x 3 open modes, ~30% failing navigations of 18 kinds, deletions in modify mode; ADF and "
                       "HDF5.  non-trivial = a navigation followed by an observation (cg_where + marker / descriptor read); distinct by "
                       "(backend, mode, spelling or failure kind, target label, depth)")
-    nsc = 3 if big else 1
+    nsc = 6 if big else 3
     dist = {"scenarios": 0, "commands": 0, "nodes": 0, "navigations": 0, "spellings": {}, "failures": {}, "kinds": set(), "deletes": 0}
     found = []
     all_divs = []
@@ -1197,6 +1202,7 @@ def run(ck):
     if tables:
         new_bad = tables["bad_arm"] + tables["bad_label"] + tables["bad_arow"] + tables["changed_shape"]
     ck.extra["side_findings"] = {"dispatcher_labels_never_pushed_by_goto": tables["unreachable"] if tables else None}
+    ck.extra["delete_sweep_kinds"] = dict(SWEPT)
     if (broken or all_divs or new_bad) and not found:
         # widen: more scenarios (the generator visits every arm it can build; a broken row must be exercised)
         for j in range(6 if not big else 10):
